@@ -1,0 +1,82 @@
+//go:build verif
+
+package virtual
+
+import (
+	"sort"
+
+	"github.com/buildbarn/bb-storage/pkg/filesystem/path"
+)
+
+// VerifDirectoryEntry is one entry of the list of children of an
+// in-memory directory, exactly as stored.
+type VerifDirectoryEntry struct {
+	Name           path.Component
+	NormalizedName string
+	Cookie         uint64
+	Directory      PrepopulatedDirectory // nil for leaves
+	Leaf           LinkableLeaf          // nil for directories
+}
+
+// VerifMapEntry is one entry of the map of children of an in-memory
+// directory: the key and the name stored in the entry it refers to.
+type VerifMapEntry struct {
+	Key  string
+	Name path.Component
+}
+
+// VerifDirectoryState is the raw state of one in-memory directory. It is
+// exported for the conformance drivers of /verif, which must be able to
+// look at a directory without instantiating its lazy contents.
+type VerifDirectoryState struct {
+	// LockBusy is set if the directory's lock could not be acquired;
+	// no other field is valid in that case.
+	LockBusy  bool
+	IsDeleted bool
+	IsLazy    bool
+	// InitialContentsFetcher is the fetcher of a lazy directory (nil
+	// once the contents have been instantiated).
+	InitialContentsFetcher InitialContentsFetcher
+	ChangeID               uint64
+	ListEntries            []VerifDirectoryEntry
+	MapEntries             []VerifMapEntry
+}
+
+// VerifState returns the raw state of the directory. It does not modify
+// anything.
+func (i *inMemoryPrepopulatedDirectory) VerifState() VerifDirectoryState {
+	if !i.lock.TryLock() {
+		return VerifDirectoryState{LockBusy: true}
+	}
+	defer i.lock.Unlock()
+
+	s := VerifDirectoryState{
+		IsDeleted: i.contents.isDeleted,
+		IsLazy:    i.initialContentsFetcher != nil,
+
+		InitialContentsFetcher: i.initialContentsFetcher,
+		ChangeID:               i.contents.changeID,
+	}
+	if i.contents.entriesMap == nil {
+		// Contents were never initialized.
+		return s
+	}
+	for entry := i.contents.entriesList.next; entry != &i.contents.entriesList && entry != nil; entry = entry.next {
+		e := VerifDirectoryEntry{
+			Name:           entry.name,
+			NormalizedName: string(entry.normalizedName),
+			Cookie:         entry.cookie,
+		}
+		if directory, leaf := entry.child.GetPair(); directory != nil {
+			e.Directory = directory
+		} else {
+			e.Leaf = leaf
+		}
+		s.ListEntries = append(s.ListEntries, e)
+	}
+	for key, entry := range i.contents.entriesMap {
+		s.MapEntries = append(s.MapEntries, VerifMapEntry{Key: string(key), Name: entry.name})
+	}
+	sort.Slice(s.MapEntries, func(a, b int) bool { return s.MapEntries[a].Key < s.MapEntries[b].Key })
+	return s
+}
